@@ -61,6 +61,7 @@ var goastWhitelist = []gaKernel{
 	{"pkg/objects", "block_index.go", "BlockIndex.Len"},
 	{"pkg/objects", "block_index.go", "BlockIndex.Get"},
 	{"pkg/index", "fanout.go", "addToFanoutTable"},
+	{"pkg/objects", "str_list.go", "StrListEncoder.Encode"},
 }
 
 // Outside-world functions ([SOracle] of lib/GoLang.v): calls whose result comes from the store.
@@ -484,7 +485,8 @@ type gaTr struct {
 	frozen   map[int]int // variables being ranged over: no writes inside the loop body
 	recvName string      // struct receiver identifier ("" if none)
 	recvObj  *ast.Object
-	recvFlds []string // its fields, in declaration order (parameters 0..len-1)
+	recvFlds []string        // its fields, in declaration order (parameters 0..len-1)
+	spare    map[string]bool // fields whose capacity is used: companion variable "recv.f.spare"
 }
 
 var gaSigs = map[string]*gaSig{} // key "pkg.Func"
@@ -916,6 +918,15 @@ func (t *gaTr) call(x *ast.CallExpr) (string, string) {
 				}
 			}
 			return gaUnsE("conversion " + gaSrc(x)), "?"
+		case "cap":
+			if len(x.Args) == 1 {
+				if v := t.fieldVar(x.Args[0]); v != nil {
+					if sp := t.spareOf(v); sp != nil {
+						return "(EBin Add (ELen " + t.evar(v) + ") (ELen " + t.evar(sp) + "))", "int"
+					}
+				}
+			}
+			return gaUnsE("cap " + gaSrc(x)), "?"
 		case "len":
 			if len(x.Args) == 1 {
 				c, ty := t.expr(x.Args[0])
@@ -1201,6 +1212,10 @@ func (t *gaTr) withPre(f func()) []string {
 }
 
 func (t *gaTr) lhs(e ast.Expr) (string, string) {
+	if v := t.fieldVar(e); v != nil && t.frozen[v.idx] == 0 && t.spareOf(v) == nil {
+		t.outs[v.idx] = true // a written receiver field is reported back
+		return fmt.Sprintf("(LVar %d (*%s*))", v.idx, v.name), v.typ
+	}
 	switch x := e.(type) {
 	case *ast.Ident:
 		if x.Name == "_" {
@@ -1241,6 +1256,48 @@ func (t *gaTr) lhs(e ast.Expr) (string, string) {
 	return "", ""
 }
 
+// gaCapFields: the receiver fields f for which the body uses cap(recv.f)
+func gaCapFields(fd *ast.FuncDecl, recv string) []string {
+	seen := map[string]bool{}
+	out := []string{}
+	ast.Inspect(fd.Body, func(n ast.Node) bool {
+		if c, ok := n.(*ast.CallExpr); ok && len(c.Args) == 1 {
+			if id, ok := c.Fun.(*ast.Ident); ok && id.Name == "cap" {
+				if sel, ok := c.Args[0].(*ast.SelectorExpr); ok {
+					if x, ok := sel.X.(*ast.Ident); ok && x.Name == recv && !seen[sel.Sel.Name] {
+						seen[sel.Sel.Name] = true
+						out = append(out, sel.Sel.Name)
+					}
+				}
+			}
+		}
+		return true
+	})
+	sort.Strings(out)
+	return out
+}
+
+// fieldVar: e is recv.f for the struct receiver; returns the variable holding the field
+func (t *gaTr) fieldVar(e ast.Expr) *gaVar {
+	sel, ok := e.(*ast.SelectorExpr)
+	if !ok || t.recvName == "" {
+		return nil
+	}
+	id, ok := sel.X.(*ast.Ident)
+	if !ok || id.Name != t.recvName || (t.recvObj != nil && id.Obj != t.recvObj) {
+		return nil
+	}
+	return t.lookup(t.recvName + "." + sel.Sel.Name)
+}
+
+// spareOf: the companion variable holding the bytes between len and cap of a field
+func (t *gaTr) spareOf(v *gaVar) *gaVar {
+	if v == nil || !t.spare[strings.TrimPrefix(v.name, t.recvName+".")] {
+		return nil
+	}
+	return t.lookup(v.name + ".spare")
+}
+
 // sliceAt: e is X or X[lo:] for a writable []byte variable X; returns the variable and the offset
 func (t *gaTr) sliceAt(e ast.Expr) (*gaVar, string, bool) {
 	lo := "(EInt 0)"
@@ -1254,11 +1311,14 @@ func (t *gaTr) sliceAt(e ast.Expr) (*gaVar, string, bool) {
 		}
 		e = se.X
 	}
-	id, ok := e.(*ast.Ident)
-	if !ok {
-		return nil, "", false
+	v := t.fieldVar(e)
+	if v == nil {
+		id, ok := e.(*ast.Ident)
+		if !ok {
+			return nil, "", false
+		}
+		v = t.lookup(id.Name)
 	}
-	v := t.lookup(id.Name)
 	if v == nil || !strings.HasPrefix(v.typ, "[]") || t.frozen[v.idx] != 0 {
 		return nil, "", false
 	}
@@ -1385,6 +1445,26 @@ func (t *gaTr) assign(s *ast.AssignStmt) string {
 	}
 	if s.Tok != token.ASSIGN && s.Tok != token.DEFINE {
 		return gaUnsS("assignment " + gaSrc(s))
+	}
+	// a receiver field whose capacity matters: value = the len bytes, companion = the bytes up to cap
+	if s.Tok == token.ASSIGN && len(s.Lhs) == 1 && len(s.Rhs) == 1 {
+		if v := t.fieldVar(s.Lhs[0]); v != nil {
+			if sp := t.spareOf(v); sp != nil {
+				t.outs[v.idx], t.outs[sp.idx] = true, true
+				both := "(EBin Add " + t.evar(v) + " " + t.evar(sp) + ")"
+				if se, ok := s.Rhs[0].(*ast.SliceExpr); ok && !se.Slice3 && se.Low == nil && se.High != nil && t.fieldVar(se.X) == v {
+					// f = f[:h] may reach into the capacity: panics iff h > cap
+					if ch, th := t.expr(se.High); gaIsInt(th) || th == "untyped" {
+						return fmt.Sprintf("(SAssign [LVar %d (*%s*); LVar %d (*%s*)] [(ESlice %s None (Some %s)); (ESlice %s (Some %s) None)])",
+							v.idx, v.name, sp.idx, sp.name, both, ch, both, ch)
+					}
+				}
+				if c, ty := t.expr(s.Rhs[0]); ty == v.typ && strings.HasPrefix(c, "(EMakeBytes ") {
+					return fmt.Sprintf("(SAssign [LVar %d (*%s*); LVar %d (*%s*)] [%s; (EStr [])])", v.idx, v.name, sp.idx, sp.name, c)
+				}
+				return gaUnsS("assignment to a capacity-tracked field " + gaSrc(s))
+			}
+		}
 	}
 	// sets (map[K]struct{} held in a LOCAL variable): `_, ok := m[k]` and `m[k] = struct{}{}`
 	if len(s.Lhs) == 2 && len(s.Rhs) == 1 {
@@ -1824,6 +1904,26 @@ func (t *gaTr) stmt(s ast.Stmt) string {
 					if c, ty := t.expr(call.Args[0]); c == "EErr" && ty == "error" {
 						return "SPanic"
 					}
+					// panic(fmt.Errorf(.., args)): the arguments are expressions of this language (no
+					// effects, they terminate); whether or not evaluating them panics, the result is a panic
+					if inner, ok := call.Args[0].(*ast.CallExpr); ok {
+						if sel, ok := inner.Fun.(*ast.SelectorExpr); ok {
+							if p, ok := t.importPathOf(sel.X); ok && p == "fmt" && sel.Sel.Name == "Errorf" {
+								fine := true
+								saved := t.hoistOK
+								t.hoistOK = false
+								for _, a := range inner.Args {
+									if c, _ := t.expr(a); strings.Contains(c, "EUnsupported") {
+										fine = false
+									}
+								}
+								t.hoistOK = saved
+								if fine {
+									return "SPanic"
+								}
+							}
+						}
+					}
 				}
 			case "copy":
 				if len(call.Args) == 2 {
@@ -1913,11 +2013,20 @@ func goastFunc(k gaKernel) string {
 			pn, pt = append([]string{rn}, pn...), append([]string{rt}, pt...)
 		case sok:
 			t.recvName, t.recvObj, t.recvFlds = sr, fd.Recv.List[0].Names[0].Obj, sfn
-			fp := []string{}
-			for _, f := range sfn {
-				fp = append(fp, sr+"."+f)
+			fp, ftp := []string{}, []string{}
+			for i, f := range sfn {
+				fp, ftp = append(fp, sr+"."+f), append(ftp, sft[i])
 			}
-			pn, pt = append(fp, pn...), append(append([]string{}, sft...), pt...)
+			t.spare = map[string]bool{}
+			for _, f := range gaCapFields(fd, sr) {
+				for i := range sfn {
+					if sfn[i] == f && sft[i] == "[]uint8" {
+						t.spare[f] = true
+						fp, ftp = append(fp, sr+"."+f+".spare"), append(ftp, "[]uint8")
+					}
+				}
+			}
+			pn, pt = append(fp, pn...), append(ftp, pt...)
 		case len(fd.Recv.List[0].Names) == 1 && gaUsesIdent(fd.Body, fd.Recv.List[0].Names[0]):
 			ss = append(ss, gaUnsS("receiver "+fd.Recv.List[0].Names[0].Name+" is used"))
 		}
@@ -1970,8 +2079,16 @@ func goastEmit(repoRoot, outPath string) {
 		if fd.Recv != nil && len(fd.Recv.List[0].Names) == 1 && gaUsesIdent(fd.Body, fd.Recv.List[0].Names[0]) {
 			if _, rty, ok := gaRecvParam(fd); ok {
 				pt = append([]string{rty}, pt...)
-			} else if _, _, sft, ok := gaRecvStruct(fd); ok {
-				pt = append(append([]string{}, sft...), pt...)
+			} else if sr, sfn, sft, ok := gaRecvStruct(fd); ok {
+				ftp := append([]string{}, sft...)
+				for _, f := range gaCapFields(fd, sr) {
+					for i := range sfn {
+						if sfn[i] == f && sft[i] == "[]uint8" {
+							ftp = append(ftp, "[]uint8")
+						}
+					}
+				}
+				pt = append(ftp, pt...)
 				isStruct = true
 			}
 		}
